@@ -688,8 +688,14 @@ func (g *storeGen) queries(opIdx int, nops int) []M {
 	pick := g.kinds[r.Intn(len(g.kinds))]
 	switch pick {
 	case 6:
-		names := append([]string{"core.Dataset", "zz"}, g.allNames...)
-		return append(qs, M{"op": "q", "q": "catalogue", "names": names})
+		// core.Dataset's own meta entity is asked for separately: its items counter falls under known finding D22
+		// and an observation attributed to a known finding is not compared
+		names := append([]string{"zz"}, g.allNames...)
+		qs = append(qs, M{"op": "q", "q": "catalogue", "names": names})
+		if r.Intn(4) == 0 {
+			qs = append(qs, M{"op": "q", "q": "catalogue", "names": []string{"core.Dataset"}})
+		}
+		return qs
 	case 0:
 		qs = append(qs, M{"op": "q", "q": "list", "ds": ds, "pages": [][]int{{0}, {1, 1, 1, 1, 1, 1, 1}, {2, 3, 0}, {3, 2, 2, 2}}[r.Intn(4)]})
 	case 1:
